@@ -249,7 +249,9 @@ def stuck_diagnosis(out) -> str:
         if st["status"] not in COMPLETE and st["status"] != "NOT_STARTED":
             parts.add(st["status"] + "[" + ",".join(sorted({t[0] for t in st["tasks"]})) + "]")
     if not parts:
-        parts = {"nothing-started" if all(st["status"] == "NOT_STARTED" for st in out["final"]["stages"]) else "only-NOT_STARTED-left"}
+        sts = {st["status"] for st in out["final"]["stages"]}
+        parts = {"nothing-started" if sts == {"NOT_STARTED"} else
+                 ("all-stages-complete" if all(x in COMPLETE for x in sts) else "only-NOT_STARTED-left")}
     return ";".join(sorted(parts))
 
 
